@@ -155,3 +155,91 @@ def finish(res, level_text, rule, assumptions, wall, exhaustive=True):
     print(f"{prop} [{TIER}] states={res.states} evaluations={res.evaluations} nontrivial={res.nontrivial} "
           f"out_of_claim={res.unspec} known={sum(v[1] for v in known.values())} violations={len(printed)} wall={wall}s")
     return 1 if violations else 0
+
+
+# ------------------------------------------------------------------ heap machine stages (C06, C10)
+def heap_model_stage(res, prop, cfg_name, timeout=1500):
+    """TLC explores every program of the bounded alphabet (checking refinement of the mechanism level, frame and
+    read-purity properties); every reachable state = one program, replayed into the real code."""
+    cfg = os.path.join(SPEC, "mc", f"MC_Heap.{cfg_name}.{TIER}.cfg")
+    dump = os.path.join(scratch(), f"MC_Heap.{os.getpid()}.dump")
+    t = Timer()
+    r = tlc.run_tlc(os.path.join(SPEC, "mc", "MC_Heap.tla"), cfg, dump=dump, timeout=timeout)
+    tlc.require_clean(r, f"MC_Heap {cfg_name} ({TIER})")
+    res.states += r["distinct"]
+    res.transitions += r["states"]
+    res.extra.setdefault("tlc", []).append({"module": "MC_Heap", "cfg": os.path.basename(cfg), "generated": r["states"], "distinct": r["distinct"], "wall_s": t.s()})
+    t2 = Timer()
+    tot, bad, samples = replay.replay_heap_dump(dump, prop)
+    os.remove(dump)
+    res.evaluations += tot["evals"]
+    res.nontrivial += tot["nontrivial"]
+    res.traces += tot["cases"]
+    res.extra.setdefault("replay", []).append(dict(tot, wall_s=t2.s(), module="MC_Heap"))
+    for b in bad:
+        b["binding"] = "A:tlc->code"
+        b["family"] = "heap"
+    res.bad += bad
+    res.samples += samples[:2]
+    return res
+
+
+def _heap_shard(args):
+    path, timeout = args
+    r = tlc.run_tlc(os.path.join(SPEC, "trace", "Trace_Heap.tla"), os.path.join(SPEC, "trace", "Trace_Heap.cfg"),
+                    workers=1, timeout=timeout, env={"TRACE_FILE": path}, heap="2g", name=os.path.basename(path))
+    return path, r
+
+
+def heap_trace_stage(res, prop, n, shards=NCPU, timeout=900):
+    """A seeded driver runs n random programs (deep, chained selections, all selector kinds) on the real code,
+    observing every live handle after every step; TLC walks the specification's state machine along each
+    recorded program and judges every observation."""
+    import concurrent.futures as cf
+    from . import drivers_heap, tlaparse
+    t = Timer()
+    ctx = mp.get_context("fork")
+    per = (n + shards - 1) // shards
+    with ctx.Pool(shards) as pool:
+        parts = pool.starmap(drivers_heap.generate_and_run, [(SEED * 1000 + k, per, prop) for k in range(shards)])
+    sc = scratch()
+    jobs = []
+    for k, progs in enumerate(parts):
+        for p in progs:
+            p["id"] = k * 100000 + p["id"]
+        path = os.path.join(sc, f"heaptrace.{os.getpid()}.{k}.json")
+        with open(path, "w") as f:
+            json.dump([{"id": p["id"], "steps": p["steps"], "rec": p["rec"]} for p in progs], f)
+        jobs.append((path, timeout))
+    byid = {p["id"]: p for progs in parts for p in progs}
+    states = 0
+    skipped = 0
+    with cf.ThreadPoolExecutor(shards) as ex:
+        for path, r in ex.map(_heap_shard, jobs):
+            if r["errors"] or not r["finished"] or r["violated"]:
+                lines = r["stdout"].splitlines()
+                k = next((i for i, l in enumerate(lines) if l.startswith("Error:")), max(0, len(lines) - 30))
+                raise tlc.TLCError("heap trace validation did not run to the end:\n" + "\n".join(lines[k:k + 25]))
+            states += r["distinct"]
+            for raw in tlc.printed_tuples(r["stdout"]):
+                v = tlaparse.parse_value(raw)
+                if v[0] == "S":
+                    skipped += 1
+                    continue
+                pr = byid[v[1]]
+                res.bad.append({"steps": pr["steps"][:v[2]], "opts": pr["opts"], "handle": v[3], "verdict": v[4], "expected": v[5], "mech": v[6],
+                                "observed": pr["rec"][v[2] - 1]["res"] if v[3] == 0 else pr["rec"][v[2] - 1]["obs"][v[3] - 1] if v[3] <= len(pr["rec"][v[2] - 1]["obs"]) else None,
+                                "stale": v[4] == "known", "mech_match": v[4] == "known", "binding": "B:code->tlc", "family": "heap"})
+            os.remove(path)
+    nsteps = sum(len(p["steps"]) for p in byid.values())
+    res.states += states
+    res.transitions += states
+    res.evaluations += nsteps
+    res.nontrivial += len({short_hash(p["steps"]) for p in byid.values() if len(p["steps"]) >= 3})
+    res.traces += len(byid)
+    res.unspec += skipped
+    res.extra.setdefault("trace", []).append({"module": "Trace_Heap", "programs": len(byid), "steps": nsteps, "programs_cut_short": skipped,
+                                              "observations": sum(len(x["obs"]) for p in byid.values() for x in p["rec"]), "wall_s": t.s()})
+    any_p = next(iter(byid.values()))
+    res.samples.append({"program": any_p["steps"], "recorded": any_p["rec"][-1]})
+    return res
